@@ -93,6 +93,10 @@ func (p *Parser) ParseSignedDataForUpdate(compactJWS string) (*model.UpdateSigne
 		return nil, fmt.Errorf("validate signed data for update: %s", err.Error())
 	}
 
+	if err := validateAlgorithmForKey(jws.ProtectedHeaders, schema.UpdateKey); err != nil {
+		return nil, fmt.Errorf("validate signed data for update: %s", err.Error())
+	}
+
 	return schema, nil
 }
 
